@@ -1,7 +1,7 @@
 (* C02 -- lossless mode reproduces every sample exactly.
    Property theorems only: statement + exact + Print Assumptions. *)
 From Coq Require Import List ZArith.
-From LJT Require Import model.Huff model.Lossless model.LosslessPixels proofs.LosslessPixelsProofs model.LosslessBytes proofs.LosslessBytesProofs proofs.LosslessProofs proofs.LosslessScanProofs proofs.LosslessBitsProofs proofs.LosslessHuffProofs proofs.LosslessSuspendProofs gen.GenLossless proofs.LosslessGenProofs.
+From LJT Require Import model.Huff model.Lossless model.LosslessLazy proofs.LosslessLazyProofs model.LosslessPixels proofs.LosslessPixelsProofs model.LosslessBytes proofs.LosslessBytesProofs proofs.LosslessProofs proofs.LosslessScanProofs proofs.LosslessBitsProofs proofs.LosslessHuffProofs proofs.LosslessSuspendProofs gen.GenLossless proofs.LosslessGenProofs.
 Import ListNotations.
 Local Open Scope Z_scope.
 
@@ -134,6 +134,58 @@ Theorem C02_scan_bytes_roundtrip :
 Proof. exact real_huffman_scan_bytes. Qed.
 Print Assumptions C02_scan_bytes_roundtrip.
 
+(* END TO END: sample rows -> bytes -> sample rows, with NO interval hypothesis.  A scan
+   of n = |tbls| components (MCU = one sample of every component, each with its own
+   predictor state and Huffman table; n = 1 non-interleaved), any number of rows >= 1 of
+   width w, precision 2..16, predictor 1..7, point transform 0 <= Pt < precision, restart
+   interval 0 or R * w (what start_pass_lossless / restart_in_rows accept).  Encoder:
+   scaling, differencing with per-component restart_rows_to_go, category coding, emit_bits,
+   stuffing, padding, RSTn from restarts_to_go.  Decoder AS IT RUNS: lazily refilled bit
+   buffer (jpeg_fill_bit_buffer), one MCU row per decode_mcus call, the row counter
+   restart_rows_to_go with the per-row restart test, process_restart / read_restart_marker,
+   restart_pending -> start_pass_lossless, undifferencing, scaling.  Result: every sample
+   with its Pt low bits cleared, and the reader stands at the marker that follows the
+   scan (wf: nothing beyond it consumed, no zero bits inserted, no warning). *)
+Theorem C02_samples_bytes_samples :
+  forall (tabs : Z -> list Z * list Z) (cts : Z -> ctbl) (dts : Z -> dtbl),
+  (forall t, length (fst (tabs t)) = 17%nat) ->
+  (forall t, make_c_derived (fst (tabs t)) (snd (tabs t)) 16 = Some (cts t)) ->
+  (forall t, make_d_derived (fst (tabs t)) (snd (tabs t)) true 16 = Some (dts t)) ->
+  (forall t s, 0 <= s <= 16 -> 1 <= nthZ (ehufsi (cts t)) (Z.to_nat s) <= 16) ->
+  forall ri w R tbls psv prec pt mrows m tail,
+  (1 <= w)%nat -> (ri = 0 \/ ((1 <= R)%nat /\ ri = Z.of_nat (R * w))) -> ri < 4294967296 ->
+  2 <= prec <= 16 -> 1 <= psv <= 7 -> 0 <= pt < prec ->
+  Forall (fun mr => length mr = length tbls /\
+          Forall (fun r => length r = w /\ Forall (fun s => 0 <= s < 2 ^ prec) r) mr) mrows ->
+  (1 <= length mrows)%nat -> m <> 0 -> m <> 255 ->
+  exists bytes, encode_scan_e2e cts (length tbls) ri psv prec pt tbls w mrows = Some bytes /\
+    exists st' pad,
+      decode_scan_e2e (huff_dec dts) (length tbls) ri psv prec pt tbls w (length mrows) (bytes ++ 255 :: m :: tail)
+      = Some (map (map (map (fun s => Z.shiftl (Z.shiftr s pt) pt))) mrows, st') /\ wf st' pad m tail.
+Proof. exact real_samples_bytes_samples. Qed.
+Print Assumptions C02_samples_bytes_samples.
+
+(* the lazily refilled row-by-row reader and the whole-segment reader return the same
+   differences on what the encoder writes, and the lazy one stops at the marker *)
+Theorem C02_lazy_reader_equals_segment_reader :
+  forall (tabs : Z -> list Z * list Z) (cts : Z -> ctbl) (dts : Z -> dtbl),
+  (forall t, length (fst (tabs t)) = 17%nat) ->
+  (forall t, make_c_derived (fst (tabs t)) (snd (tabs t)) 16 = Some (cts t)) ->
+  (forall t, make_d_derived (fst (tabs t)) (snd (tabs t)) true 16 = Some (dts t)) ->
+  (forall t s, 0 <= s <= 16 -> 1 <= nthZ (ehufsi (cts t)) (Z.to_nat s) <= 16) ->
+  forall ri w R tbls ivs raws m tail,
+  (1 <= w)%nat -> (ri = 0 \/ ((1 <= R)%nat /\ ri = Z.of_nat (R * w))) -> ri < 4294967296 ->
+  Forall2 (seg_ok cts) ivs raws -> ivs_ok ri w R ivs -> ivs_tbls_ok w tbls ivs -> m <> 0 -> m <> 255 ->
+  dec_intervals (huff_dec dts) (map tblseq ivs) 0 (join raws 0 ++ 255 :: m :: tail)
+    = Some (map canon_iv ivs, Some (m, tail)) /\
+  exists rows fin pad,
+    dec_rows_lazy (huff_dec dts) ri (Z.of_nat w) tbls w (length (concat ivs))
+      {| br_buf := []; br_inp := join raws 0 ++ 255 :: m :: tail; br_marker := None; br_insuf := false |}
+      (ri / Z.of_nat w) 0 = Some (rows, fin) /\
+    map snd rows = map (deint w tbls) (concat ivs) /\ wf (fst (fst fin)) pad m tail.
+Proof. exact real_lazy_vs_segment. Qed.
+Print Assumptions C02_lazy_reader_equals_segment_reader.
+
 (* the arithmetic emit_bits (put_buffer |= code << (24 - put_bits), bytes taken
    from bits 16..23, size_t shifts) is a bit queue: from a state holding n < 8
    pending bits of value v it writes whole (stuffed) bytes and keeps the rest *)
@@ -205,6 +257,14 @@ Theorem C02_bytes_pixels_source_facts :
   forallb (fun p => dec_alpha_ok (fst p) (snd p)) (combine gen_tj_layout gen_dec_alpha) = true.
 Proof. exact gen_bytes_pixels_facts. Qed.
 Print Assumptions C02_bytes_pixels_source_facts.
+
+(* tie: MIN_GET_BITS of the 64-bit build as read from jdhuff.h / jdhuff.c is the model's; the
+   translator also refuses to run unless jpeg_fill_bit_buffer, the row loop of decompress_data
+   (restart test, MCU_vert_offset saved on suspension, restart_pending), process_restart and
+   read_restart_marker have the statement shapes model/LosslessLazy.v transcribes *)
+Theorem C02_lazy_reader_source_facts : gen_min_get_bits = Z.of_nat MIN_GET_BITS.
+Proof. exact gen_lazy_facts. Qed.
+Print Assumptions C02_lazy_reader_source_facts.
 
 (* tie: the predictor macros, the wiring of the fourteen [un]differencing
    functions, the first-row switch, the "& 0xFFFF" masks and the constants of the
